@@ -35,7 +35,7 @@ def wipes(ctx, rep, cfgs=None):
         rep.rule('WIPE-1', 'secret-taint pass: every aggregate local (array/struct) that may receive secret-derived data '
                  '(seed secret/checksum, phrase, password, mask, word indices, CSPRNG output) is a secret-bearing temporary')
         locs = T.secret_locals()
-        rep.instances(len(locs), 12, 'secret-bearing temporaries')
+        rep.instances(len(locs), 6, 'secret-bearing temporaries')
         rep.info.setdefault('secret_temporaries', {})[cfg] = ['%s.%s[%d bytes]' % (base_name(f.name), a.d.get('var', '?'), a.d['alloc_size']) for f, a in locs]
 
         rep.rule('WIPE-2', 'for each secret-bearing temporary T of function f: on every CFG path from any instruction that may '
@@ -108,7 +108,7 @@ def wipes(ctx, rep, cfgs=None):
                     ok = bool(objs) and all(osize(o) == size for o in objs)
                 rep.check(ok, 'memzero at %s wipes a whole object' % i.loc, i.loc, f.name,
                           detail={'size': size, 'offset': off}, sample={'site': i.loc, 'size': size})
-        rep.instances(n, 14, 'dep:memzero call sites')
+        rep.instances(n, 3, 'dep:memzero call sites')
 
         rep.rule('WIPE-4', 'no writable static storage receives secret-derived data')
         bad = [o for o in T.to if o[0] == 'global']
